@@ -18,6 +18,24 @@ import (
 // ev is "Apply": the operation has just been applied to st on peer pid.
 var VerifHook func(ev string, pid peer.ID, st state.State, t LogOpType, pin *api.Pin)
 
+// VerifGate, when set, is called at scheduling points of the commit path
+// ("commit.beforeLock": the leader check has passed, the shutdown lock is not
+// yet taken) and may block: the /verif harness uses it to force interleavings
+// of commit() with Shutdown().
+var VerifGate func(point string, pid peer.ID)
+
+func verifGate(point string, cc *Consensus) {
+	g := VerifGate
+	if g == nil {
+		return
+	}
+	var pid peer.ID
+	if cc != nil && cc.host != nil {
+		pid = cc.host.ID()
+	}
+	g(point, pid)
+}
+
 func verifHook(ev string, cc *Consensus, st state.State, t LogOpType, pin *api.Pin) {
 	h := VerifHook
 	if h == nil {
